@@ -32,15 +32,15 @@ func (r Result) String() string {
 
 // Stats accumulates what a solver process was asked.
 type Stats struct {
-	Queries  int
-	Sat      int
-	Unsat    int
-	Unknown  int
-	Errors   int
-	Time      time.Duration
-	MaxQuery  time.Duration
-	ModelTime time.Duration
-	Models    int
+	Queries        int
+	Sat            int
+	Unsat          int
+	Unknown        int
+	Errors         int
+	Time           time.Duration
+	MaxQuery       time.Duration
+	ModelTime      time.Duration
+	Models         int
 	SecondOpinions int
 }
 
@@ -124,6 +124,18 @@ func (s *Solver) send(line string) {
 		s.script.WriteByte('\n')
 	}
 	io.WriteString(s.in, line+"\n")
+}
+
+// CheckLong repeats the last query with the per-query timeout multiplied by factor (the
+// assertion stack is unchanged), and restores the timeout.
+func (s *Solver) CheckLong(factor int) Result {
+	if s.timeoutMs <= 0 {
+		return s.Check()
+	}
+	s.send(fmt.Sprintf("(set-option :timeout %d)", s.timeoutMs*factor))
+	r := s.Check()
+	s.send(fmt.Sprintf("(set-option :timeout %d)", s.timeoutMs))
+	return r
 }
 
 // CheckSecondOpinion re-decides the current assertion stack with another solver
